@@ -3,7 +3,8 @@ C06 — batched Curl equals independent Curl-P-81 sponges, lane by lane.
 Model: Iota/Model/Curl.lean (the Go code, with every array access bounds-checked);
 specification: Iota/Spec/CurlP.lean (trit-level Curl-P-81, single lane).
 Proofs: Iota/Proofs/Curl/*.  `Clone` is the identity on the model's immutable values (Go copies
-the two arrays by value); that clones do not alias is observed by the correspondence run.
+the two arrays by value: `clone_continues_identically`); that clones do not alias is observed by the
+correspondence run (clone scenarios) and by the pinned text of `Clone`.
 -/
 import Iota.Proofs.Curl
 
@@ -63,6 +64,13 @@ theorem squeeze_never_panics (c : Curl) (lanes n : Nat) : c.squeeze lanes n ≠ 
 /-- `Reset` returns the instance to its initial state (`run` restarts from `Curl.init`), which simulates
 64 fresh sponges. -/
 theorem reset_is_init : Sim Curl.init (fun _ => Spec.CurlP.Sponge.init) := sim_init
+
+/-- `Clone` copies all three fields, so the clone IS the original as a value: every continuation of the clone
+produces what the same continuation of the original produces, and (values being immutable) nothing done to the one
+is visible on the other.  What this theorem cannot see is aliasing in the Go struct copy; arrays are values in Go,
+the text of `Clone` is pinned (Tie/Curl) and clone-and-continue histories run in the correspondence. -/
+theorem clone_continues_identically (c : Curl) (ops : List Op) :
+    c.clone = c ∧ run c.clone ops = run c ops ∧ c.copyState = (c.l, c.h) := ⟨rfl, rfl, rfl⟩
 
 /-! ### non-vacuity -/
 example : WF false [.absorb [[1, 0, -1]] 0, .squeeze 2 486, .reset, .squeeze 65 243, .squeeze 1 243] := by
